@@ -729,5 +729,6 @@ func main() {
 	run.Set("rule", "events: SaveBlock of X / X re-issued with a header sup link (same hash) / sibling Y, SaveBlockHeader of X, X+link, Y+link, SaveCheckpoints (two versions of each of the two checkpoints, one two-element batch), SaveChainStatus with the main chain at height 2 switching between X and Y and (main-chain profile) SaveChainStatus attaching two or three headers in one call (chains X-X2-X3, Y-Y2-Y3, fork X-W2-W3 over heights 2..4, wholesale, partial and shorter switches) with GetMainChainHash / GetBlockHashesByHeight of every one of those heights and SaveBlock of X2, Y2, X3, the cache-filling reads GetBlockHeader, GetBlock, GetBlockHashesByHeight, GetMainChainHash, GetCheckpoint, GetCheckpointsByHeight, and GetBlockHeader->AddSupLink->SaveBlockHeader. Three searches (profiles, see coverage.profiles): the 23 block/header/checkpoint events, the 15 main-chain events, and all 34 events together to a smaller depth. A state = (database content, content of the five LRU caches as seen through the export hook); every history is replayed on a brand-new Store; transitions = histories executed; in every distinct state each of the getters is called twice on its own replica and once on a fresh NewStore over the same database (2 comparisons per getter and state).")
 	run.Assume("the fresh database.NewStore over the same database is the reference (reads with empty caches); single-threaded use of the Store (singleflight and LRU eviction are not exercised: at most a handful of entries per cache)")
 	run.Assume("callers do not modify returned objects except through the node's own header read-modify-write pattern")
+	concurrent(run)
 	run.Finish()
 }
